@@ -1,0 +1,21 @@
+//go:build verif
+
+package entropy
+
+// VerifNormHook, when set, observes every call of NormalizeFrequencies: the histogram on entry,
+// the table and the alphabet on return. It must be safe for concurrent use.
+var VerifNormHook func(in, out, alphabet []int, totalFreq, scale int)
+
+func verifNormEnter(freqs []int, totalFreq, scale int) []int {
+	if VerifNormHook == nil {
+		return nil
+	}
+
+	return append([]int(nil), freqs...)
+}
+
+func verifNormExit(in, freqs, alphabet []int, totalFreq, scale int) {
+	if in != nil && VerifNormHook != nil {
+		VerifNormHook(in, freqs, alphabet, totalFreq, scale)
+	}
+}
